@@ -32,8 +32,8 @@ def site_of(ev):
     return ev[0]
 
 
-def one_scenario(ctx, base, entry, rng, tier, stats):
-    brecs, bh, _ = rig.run(base, entry)
+def one_scenario(ctx, base, entry, rng, tier, stats, manual=True):
+    brecs, bh, _ = rig.run(base, entry, manual=manual)
     ctx.inc("baseline_runs")
     counts = [r.counts for r in brecs]
     # all calls of the scenario share the plan: `at` is per call index (counters restart per call)
@@ -59,8 +59,10 @@ def one_scenario(ctx, base, entry, rng, tier, stats):
             plans.append({"kind": "hook", "hook": h, "at": "always", "exc": x})
     for f in plans:
         sc = dict(base, fault=f)
-        recs, h, _ = rig.run(sc, entry)
+        recs, h, _ = rig.run(sc, entry, manual=manual)
         ctx.inc("faulted_runs")
+        if not manual:
+            ctx.inc("faulted_runs_on_the_real_event_loop")
         ctx.inc("calls", len(recs))
         fired = sum(r.fault_fired for r in recs)
         if not fired:
@@ -125,6 +127,21 @@ def work(ctx, tier):
                 ctx.sample({"scenario": {"cfg": sc["cfg"], "place": sc["place"], "call0": sc["calls"][0]}, "baseline": common.describe(b[0], 30), "plan": "each hook x each invocation index (+always) x exception type"})
         ctx.add_hash("scenarios", sc)
         ctx.inc("scenarios")
+    # a slice on the real asyncio loop: awaitable hooks and a sleeper that takes several loop turns, so that a hook failing while
+    # the backoff is pending (anything that overlaps the two) shows as a reordered or missing sleep
+    aents = [e for e in rig.ASYNC_ENTRIES if not e.startswith("adeco")]
+    m = (120 if tier == "quick" else 2400) // ctx.nshards
+    for k in range(m):
+        sc = gen.rand_scenario(rng, max_attempts=(2, 4), p_special=0.0, p_budget=0.2, p_breaker=0.3, p_handler=0.3, p_abort=0.1, p_before_sleep=1.0, ncalls=(1, 2), placements=(k % 3 == 0))
+        sc["bs_kind"] = rng.choice(["async", "async", "lambda", "sync"])
+        sc["sleeper_kind"] = rng.choice(["async", "lambda", "callable"])
+        sc["sleeper_turns"] = rng.randint(2, 4)
+        if sc["place"].get("sleeper", "call") == "none":
+            sc["place"]["sleeper"] = "call"
+        pool = [e for e in aents if e.startswith("apolicy")] if sc["cfg"].get("breaker") else aents
+        for e in common.pick_entries(rng, pool, 2):
+            one_scenario(ctx, sc, e, rng, tier, stats, manual=False)
+        ctx.inc("real_loop_scenarios")
     common.flush_stats(ctx, stats)
 
 
@@ -136,6 +153,7 @@ def conclude(ctx):
         "comparisons": (ctx.cnt["comparisons"], 3000),
         "sink_comparisons": (ctx.cnt["sink_comparisons"], 3000),
         "distinct (entry, hook, single/always) cells": (len(ctx.sets["cells"]), 60),
+        "faulted_runs_on_the_real_event_loop": (ctx.cnt["faulted_runs_on_the_real_event_loop"], 300),
     }
     for s in ("metric:retry", "metric:success", "metric:aborted", "metric:scheduled", "metric:max_attempts_exceeded", "metric:permanent_fail", "metric:deadline_exceeded", "metric:budget_exhausted",
               "metric:circuit_opened", "metric:circuit_rejected", "metric:circuit_half_open", "metric:circuit_closed", "before_sleep"):
@@ -147,7 +165,7 @@ def conclude(ctx):
             "hook-fault enumeration: per scenario x entry, a silent-hook baseline run counts the invocations of on_metric / on_log / before_sleep (sync and awaitable); one faulted run per "
             "(hook x invocation index) and per (hook x 'always' x exception type) with types drawn from 12 Exception subclasses (incl. StopIteration, AbortRetryError, RetryExhaustedError, "
             "CircuitOpenError, asyncio.TimeoutError, and exceptions whose __str__ raises or returns a non-str); the control projection {operations, strategy calls, handler, sleeps, polls, budget, breaker records, final} must equal the baseline's and the other "
-            "sinks (metric/log/before_sleep/timeline) must receive the same events; distinct_nontrivial = distinct (entry, hook, single/always) cells in which the fault fired"
+            "sinks (metric/log/before_sleep/timeline) must receive the same events; a slice runs on the real asyncio loop with awaitable hooks and a sleeper that takes 2-4 loop turns; distinct_nontrivial = distinct (entry, hook, single/always) cells in which the fault fired"
         ),
         evaluations=ctx.cnt["faulted_runs"] + ctx.cnt["baseline_runs"],
         nontrivial=len(ctx.sets["cells"]),
@@ -162,8 +180,9 @@ def replay(data):
     p = data["payload"]
     sc, entry, k = p["scenario"], p["entry"], p.get("call", 0)
     base = dict(sc, fault=None)
-    b, _, _ = rig.run(base, entry)
-    r, _, _ = rig.run(sc, entry)
+    manual = "sleeper_turns" not in sc
+    b, _, _ = rig.run(base, entry, manual=manual)
+    r, _, _ = rig.run(sc, entry, manual=manual)
     keep = CONTROL + ("metric", "log", "before_sleep")
     pa = O.project(View(b[k], base), keep=keep, strip_place=False)
     pb = O.project(View(r[k], sc), keep=keep, strip_place=False)
